@@ -280,10 +280,10 @@ theorem doSheet_effect (p : Prefs) (sl : Nat) (s : Sheet) : doSheet p sl (effect
     intro r hr
     have := (List.mem_filter.mp hr).2
     simpa using this)]
-  have ih := doRules_effect p 0 sl (s.rules.filter fun r => !nsDropped p s.usedUris r)
+  have ih := doRules_effect p 0 0 (s.rules.filter fun r => !nsDropped p s.usedUris r)
   revert ih
-  generalize doRules p 0 sl (effectRules p 0 (s.rules.filter fun r => !nsDropped p s.usedUris r)) = A
-  generalize doRules p 0 sl (s.rules.filter fun r => !nsDropped p s.usedUris r) = B
+  generalize doRules p 0 0 (effectRules p 0 (s.rules.filter fun r => !nsDropped p s.usedUris r)) = A
+  generalize doRules p 0 0 (s.rules.filter fun r => !nsDropped p s.usedUris r) = B
   intro ih
   cases A <;> cases B <;> simp only [SameTexts] at ih
   · rename_i e e'; cases e; cases e'; rfl
